@@ -45,16 +45,17 @@ def run(rep, tier, seed, rng):
         if k < len(pool):
             mods = [m for m in mods if m.get("env", {}).get("export")] or mods
         if not mods: continue
-        m = rng.choice(mods)
-        scope = "export" if (k < len(pool) and m.get("env", {}).get("export")) else rng.choice(["local", "export"])
-        var = rng.choice(["CFLAGS", "X"])
-        f2 = copy.deepcopy(f)
-        # locate the same module in the copy (same position)
-        idx = [id(x) for x in all_module_dicts(f)].index(id(m))
-        m2 = list(all_module_dicts(f2))[idx]
-        env = m2.setdefault("env", {}).setdefault(scope, {})
-        env[var] = "EDITED-%s" % scope
-        base.append((f, c, f2, m["name"], scope, var))
+        # directed cases are small: every candidate module is edited in turn (up to three); random projects: one
+        for m in (rng.sample(mods, min(3, len(mods))) if k < len(pool) else [rng.choice(mods)]):
+            scope = "export" if (k < len(pool) and m.get("env", {}).get("export")) else rng.choice(["local", "export"])
+            var = rng.choice(["CFLAGS", "X"])
+            f2 = copy.deepcopy(f)
+            # locate the same module in the copy (same position)
+            idx = [id(x) for x in all_module_dicts(f)].index(id(m))
+            m2 = list(all_module_dicts(f2))[idx]
+            env = m2.setdefault("env", {}).setdefault(scope, {})
+            env[var] = "EDITED-%s" % scope
+            base.append((f, c, f2, m["name"], scope, var))
     r1 = e2e.run_batch(laze, driver, [(b[0], b[1]) for b in base])
     r2 = e2e.run_batch(laze, driver, [(b[2], b[1]) for b in base])
     # import closures from the model, per configured build
